@@ -6,6 +6,8 @@ package parser
 // group mark) with 0..4 decimals and an optional '-' must normalise to a string whose decimal value is the number
 // that was written. The one notation that is ambiguous (a single mark followed by exactly three digits after a
 // non-zero integer part, e.g. 1.000 / 1,000) is generated only in its grouped reading, which is the documented choice.
+// Mantissas with an integer part of up to three digits are also written with an exponent (E3, e-2, E+1): the value
+// must be the mantissa's value scaled by the power of ten.
 
 import (
 	"fmt"
@@ -27,6 +29,13 @@ func bnGroup(digits string, mark string) string {
 	}
 	parts = append([]string{digits}, parts...)
 	return strings.Join(parts, mark)
+}
+
+func abs(x int) int {
+	if x < 0 {
+		return -x
+	}
+	return x
 }
 
 func TestVerifBounded_NumberNotation(t *testing.T) {
@@ -90,6 +99,32 @@ func TestVerifBounded_NumberNotation(t *testing.T) {
 						if d.Rat().Cmp(want) != 0 {
 							fmt.Printf("BOUNDED-FAIL %q normalises to %q = %s, the number written is %s\n", written, norm, d.String(), exp)
 							return
+						}
+						// exponent notation: the exponent scales the mantissa, whatever the mantissa's notation
+						if len(in) <= 3 {
+							for _, ex := range []struct {
+								s string
+								k int
+							}{{"E3", 3}, {"e-2", -2}, {"E+1", 1}} {
+								cases++
+								wantE := new(big.Rat).Mul(want, new(big.Rat).SetFrac(big.NewInt(1), big.NewInt(1)))
+								p10 := new(big.Rat).SetInt(new(big.Int).Exp(big.NewInt(10), big.NewInt(int64(abs(ex.k))), nil))
+								if ex.k >= 0 {
+									wantE.Mul(wantE, p10)
+								} else {
+									wantE.Quo(wantE, p10)
+								}
+								normE := normalizeNumber(written + ex.s)
+								dE, err := decimal.NewFromString(normE)
+								if err != nil {
+									fmt.Printf("BOUNDED-FAIL %q normalises to %q, which is not a number (%v)\n", written+ex.s, normE, err)
+									return
+								}
+								if dE.Rat().Cmp(wantE) != 0 {
+									fmt.Printf("BOUNDED-FAIL %q normalises to %q = %s, the number written is %s x 10^%d\n", written+ex.s, normE, dE.String(), exp, ex.k)
+									return
+								}
+							}
 						}
 					}
 				}
